@@ -12,7 +12,7 @@ import (
 func init() {
 	register(&propDef{
 		id: "C13", level: "other", run: runC13,
-		explanation: "Decided: (R1) the dispatch of the record-header byte is evaluated from the SSA guards for all 256 values, in evaluation order, and compared with the FIT layout (1xxxxxxx compressed-timestamp data, 01xxxxxx definition, 00xxxxxx data); the local-type extraction is hdr&0x0F for normal headers and (hdr&0x60)>>5 for compressed ones and stays below the slot-array length for all 256 values; the two header tests of parseFileIdMsg are held against the same classes (a guard admitting bytes of another class, or all 256 bytes, is reported). (R2) slot discipline: the only stores to decoder.defmsgs are defmsgs[dm.localMsgType] = dm with dm the freshly parsed definition on its error-free edge; localMsgType is written once as hdr & 0x0F; the only load indexes with the extracted local type and is nil-checked before any use. (R3) independence: every definition is a fresh allocation whose field lists are fresh makes, and its byte order is set from the architecture byte by a two-constant switch (0 -> little endian, 1 -> big endian) with an error default. NOT decided: decoded values of interleavings.",
+		explanation: "Decided: (R1) the dispatch of the record-header byte is evaluated from the SSA guards for all 256 values, in evaluation order, and compared with the FIT layout (1xxxxxxx compressed-timestamp data, 01xxxxxx definition, 00xxxxxx data); the local-type extraction is hdr&0x0F for normal headers and (hdr&0x60)>>5 for compressed ones and stays below the slot-array length for all 256 values; the two header tests of parseFileIdMsg are held against the same classes (a guard admitting bytes of another class, or all 256 bytes, is reported). (R2) slot discipline: the only stores to decoder.defmsgs are defmsgs[dm.localMsgType] = dm with dm the freshly parsed definition on its error-free edge; localMsgType is written once as hdr & 0x0F; the only load indexes with the extracted local type and is nil-checked before any use. (R3) independence: every definition is a fresh allocation whose field lists are fresh makes, and its byte order is set from the architecture byte by a two-constant switch (0 -> little endian, 1 -> big endian) with an error default. NOT decided: decoded values of interleavings. (R3-definition-immutable) outside the definition parser no member of a defmsg, nor the list loaded from it, is assigned, boxed or handed to a function.",
 		trusted:     []string{"guard evaluation over the 256 byte values (checker/c13.go transfer functions: & const, >> const, ==, !=, !)", "go/ssa dominator tree"},
 	})
 }
@@ -252,6 +252,7 @@ func runC13(c *Ctx, r *Report) {
 	// ---- R3 ----------------------------------------------------------------------------------
 	c13Fresh(c, r)
 	byteOrderDiscipline(c, r, "C13-R3-byte-order-use")
+	c13Immutable(c, r)
 }
 
 // byteOrderDiscipline: every multi-byte read in the functions that parse a data record uses the byte
@@ -749,19 +750,34 @@ func c13ArchHelper(c *Ctx, fn *ssa.Function) (map[int64]string, bool) {
 	if !ok || rb.Common().StaticCallee() == nil || rb.Common().StaticCallee().Name() != "readByte" {
 		return nil, false
 	}
-	// store and every success return under the ok flag
+	// store and every success return under the ok flag; or, when the helper's second result is an
+	// error, every success return behind `err == nil` (the store itself may come before the test:
+	// the definition is not handed out on the error path)
 	var okFlag ssa.Value
 	for _, ref := range *call.Referrers() {
 		if e, isE := ref.(*ssa.Extract); isE && e.Index == 1 {
 			okFlag = e
 		}
 	}
-	if okFlag == nil || !domByBoolEdge(fn, st.Block(), true, func(v ssa.Value) bool { return v == okFlag }) {
+	if okFlag == nil {
 		return nil, false
 	}
-	for _, ret := range c.successReturns(fn) {
-		if !domByBoolEdge(fn, ret.Block(), true, func(v ssa.Value) bool { return v == okFlag }) {
+	errStyle := isErrorType(okFlag.Type())
+	if errStyle {
+		nf := c.newNilFacts(fn)
+		for _, ret := range c.successReturns(fn) {
+			if !nf.knownNilAt(okFlag, ret.Block()) {
+				return nil, false
+			}
+		}
+	} else {
+		if !domByBoolEdge(fn, st.Block(), true, func(v ssa.Value) bool { return v == okFlag }) {
 			return nil, false
+		}
+		for _, ret := range c.successReturns(fn) {
+			if !domByBoolEdge(fn, ret.Block(), true, func(v ssa.Value) bool { return v == okFlag }) {
+				return nil, false
+			}
 		}
 	}
 	o := symPaths(call.Common().StaticCallee(), nil, 1)
@@ -773,19 +789,185 @@ func c13ArchHelper(c *Ctx, fn *ssa.Function) (map[int64]string, bool) {
 		if len(p.rets) != 2 {
 			return nil, false
 		}
+		okRet, badRet := "true", "false"
+		if errStyle {
+			okRet = "nil"
+			if p.rets[1] != "nil" {
+				badRet = p.rets[1]
+			}
+		}
 		switch {
-		case p.rets[1] == "false":
+		case p.rets[1] == badRet && badRet != "nil":
 			// must be the path on which the byte is neither 0 nor 1
 			if strings.Join(p.conds, " ") != "F:(== 0 p0) F:(== 1 p0)" {
 				return nil, false
 			}
-		case p.rets[1] == "true" && p.rets[0] == "(iface *g:le)" && strings.Join(p.conds, " ") == "T:(== 0 p0)":
+		case p.rets[1] == okRet && p.rets[0] == "(iface *g:le)" && strings.Join(p.conds, " ") == "T:(== 0 p0)":
 			got[0] = "le"
-		case p.rets[1] == "true" && p.rets[0] == "(iface *g:be)" && (strings.Join(p.conds, " ") == "F:(== 0 p0) T:(== 1 p0)" || strings.Join(p.conds, " ") == "T:(== 1 p0)"):
+		case p.rets[1] == okRet && p.rets[0] == "(iface *g:be)" && (strings.Join(p.conds, " ") == "F:(== 0 p0) T:(== 1 p0)" || strings.Join(p.conds, " ") == "T:(== 1 p0)"):
 			got[1] = "be"
 		default:
 			return nil, false
 		}
 	}
 	return got, len(got) == 2 && len(o.paths) == 3
+}
+
+// c13Immutable: a definition is written while it is being parsed and never afterwards: outside the
+// function that allocates it, every access to a member of a defmsg — and to what is loaded from
+// it: the field list, its elements — is a read. A stored definition that is modified later (its
+// field list sorted for a log message, say) changes how the following records of that local type
+// decode although no definition record was written.
+func c13Immutable(c *Ctx, r *Report) {
+	const rule = "C13-R3-definition-immutable"
+	dmObj := c.fit.Types.Scope().Lookup("defmsg")
+	if dmObj == nil {
+		r.fail(rule, "defmsg", "", "type not found")
+		return
+	}
+	n, nOut := 0, 0
+	for _, fn := range c.moduleFuncs() {
+		if fnPkgPath(fn) != modPath || !inLib(fn) {
+			continue
+		}
+		// the constructor: allocates a defmsg
+		ctor := false
+		for _, b := range fn.Blocks {
+			for _, ins := range b.Instrs {
+				if al, ok := ins.(*ssa.Alloc); ok {
+					if pt, ok := al.Type().Underlying().(*types.Pointer); ok && types.Identical(pt.Elem(), dmObj.Type()) && al.Heap {
+						ctor = true
+					}
+				}
+			}
+		}
+		k := 0
+		for _, b := range fn.Blocks {
+			for _, ins := range b.Instrs {
+				fa, ok := ins.(*ssa.FieldAddr)
+				if !ok {
+					continue
+				}
+				o, fname := ownerOf(fa)
+				if o == nil || o.Obj() != dmObj {
+					continue
+				}
+				n++
+				if ctor {
+					continue
+				}
+				// a value receiver's spilled copy is the method's own
+				if al, ok := fa.X.(*ssa.Alloc); ok && !al.Heap {
+					continue
+				}
+				nOut++
+				k++
+				bad := mutatingUse(c, fa)
+				r.check(bad == "", rule, fmt.Sprintf("%s/defmsg.%s#%d", fn.Name(), fname, k), c.pos(fa.Pos()), "read only", "member "+fname+" of a stored definition is "+bad+" outside the function that parses definitions: records of that local type decode differently afterwards although no new definition was written")
+			}
+		}
+	}
+	r.set("defmsg_member_accesses", n)
+	r.need("accesses to definition members outside the definition parser", nOut, 10)
+}
+
+// mutatingUse: some use of the member address `root` (or of a slice / pointer / map loaded from it)
+// can change the structure: an assignment through the address or through an element of the loaded
+// list, or handing the address or the list itself to a function or an interface (which may then
+// write through it). Scalars loaded from the member may go anywhere.
+func mutatingUse(c *Ctx, root ssa.Value) string {
+	bad := ""
+	isRef := func(t types.Type) bool {
+		switch t.Underlying().(type) {
+		case *types.Slice, *types.Pointer, *types.Map:
+			return true
+		}
+		return false
+	}
+	seen := map[ssa.Value]bool{}
+	var visit func(v ssa.Value, isAddr bool, depth int)
+	visit = func(v ssa.Value, isAddr bool, depth int) {
+		if bad != "" || depth > 8 || v.Referrers() == nil || seen[v] {
+			return
+		}
+		seen[v] = true
+		for _, ref := range *v.Referrers() {
+			if bad != "" {
+				return
+			}
+			switch u := ref.(type) {
+			case *ssa.DebugRef:
+			case *ssa.Store:
+				if u.Addr == v {
+					if isAddr {
+						bad = "assigned at " + c.pos(u.Pos())
+					}
+					continue
+				}
+				// v is the value stored: a local, non-escaping variable holding it is followed; anything else is an alias
+				if al, ok := u.Addr.(*ssa.Alloc); ok && !al.Heap {
+					visit(al, false, depth+1) // loads of the local give the reference again
+					continue
+				}
+				bad = "stored at " + c.pos(u.Pos()) + " (an alias through which it can be modified later)"
+			case *ssa.UnOp:
+				if u.Op == token.MUL && u.X == v {
+					if isAddr && isRef(u.Type()) {
+						visit(u, false, depth+1)
+					} else if !isAddr {
+						// load of a local holding the reference
+						if isRef(u.Type()) {
+							visit(u, false, depth+1)
+						}
+					}
+				}
+			case *ssa.IndexAddr:
+				if u.X == v {
+					visit(u, true, depth+1)
+				}
+			case *ssa.FieldAddr:
+				if u.X == v {
+					visit(u, true, depth+1)
+				}
+			case *ssa.Slice:
+				if u.X == v {
+					visit(u, false, depth+1)
+				}
+			case *ssa.Index, *ssa.Field, *ssa.BinOp, *ssa.Return, *ssa.If, *ssa.Extract, *ssa.Lookup, *ssa.Range, *ssa.Next, *ssa.Convert, *ssa.ChangeType:
+			case *ssa.Phi:
+				if !isAddr {
+					visit(u, false, depth+1)
+				}
+			case *ssa.MakeInterface:
+				if isAddr || isRef(v.Type()) {
+					bad = "boxed into an interface at " + c.pos(u.Pos()) + " (reflect or sort can modify it)"
+				}
+			case *ssa.MapUpdate:
+				if u.Map == v {
+					bad = "updated at " + c.pos(u.Pos())
+				}
+			case ssa.CallInstruction:
+				cc := u.Common()
+				if bi, ok := cc.Value.(*ssa.Builtin); ok {
+					switch bi.Name() {
+					case "len", "cap":
+						continue
+					case "copy":
+						if len(cc.Args) == 2 && cc.Args[1] == v && cc.Args[0] != v {
+							continue
+						}
+					}
+				}
+				if isAddr || isRef(v.Type()) {
+					bad = "passed to " + calleeName(cc) + " at " + c.pos(u.Pos())
+				}
+			default:
+				if isAddr || isRef(v.Type()) {
+					bad = fmt.Sprintf("used by %T at %s", ref, c.pos(ref.Pos()))
+				}
+			}
+		}
+	}
+	visit(root, true, 0)
+	return bad
 }
